@@ -41,4 +41,23 @@ let c07_rec args =
      with Missing f -> "MODEL-ERROR:missing-oracle:" ^ f)
   | _ -> failwith "rec: bad args"
 
-let () = Registry.register "rec" c07_rec
+(* rec2: a Record that was used before; for accepted lines and lines rejected at a name it holds what a
+   fresh one would (the model's result), the other rejections are compared by their class only *)
+let c07_rec2 args =
+  let full = c07_rec args in
+  let has_err c = let pat = " err=" ^ c in
+    let n = String.length full and m = String.length pat in
+    let rec go i = i + m <= n && (String.sub full i m = pat || go (i + 1)) in go 0 in
+  if has_err "empty" then "addr=? names=? err=empty"
+  else if has_err "nohosts" then "addr=? names=? err=nohosts"
+  else if has_err "addr" then "addr=? names=? err=addr"
+  else
+    (* drop the marshalling part of rec's observation *)
+    (match String.index_opt full 'm' with
+     | _ ->
+       let cut = (let pat = " m=" in
+                  let n = String.length full and m = String.length pat in
+                  let rec go i = if i + m > n then n else if String.sub full i m = pat then i else go (i + 1) in go 0) in
+       String.sub full 0 cut)
+
+let () = Registry.register "rec" c07_rec; Registry.register "rec2" c07_rec2
